@@ -91,5 +91,87 @@ theorem firstFailure_some (fails : String → Bool) (s : String) (h : firstFailu
   intro t ht
   simpa using h3 t ht
 
+/-! ### the single-query function with outcomes -/
+
+theorem searchedO_eq {α : Type} (W : WOps α) (cfg : Config) (batch : List Json) :
+    searchedO W cfg batch =
+      match balanceO W cfg.parallelism (processed cfg.plugins batch) with
+      | .panic s => .panic s
+      | .diverges => .diverges
+      | .ok (.error e) => .ok (.error e)
+      | .ok (.ok bins) => .ok (.ok (bins, errs cfg.plugins batch)) := by
+  have hn := chunkSize_pos batch.length cfg.selfPar
+  have hc : parChunksO (chunkSize batch.length cfg.selfPar) batch
+      = .ok (chunks (chunkSize batch.length cfg.selfPar) batch) := by
+    unfold parChunksO
+    rw [if_neg (by omega)]
+  simp only [searchedO, hc, mapChunksO_eq, List.map_map]
+  have h1 : (List.map ((fun x => x.1) ∘ processChunkT cfg.plugins)
+      (chunks (chunkSize batch.length cfg.selfPar) batch)).flatten = oks cfg.plugins batch := by
+    have : ((fun x : List (List Json) × List Json => x.1) ∘ processChunkT cfg.plugins)
+        = oks cfg.plugins := by
+      funext c; simp [processChunkT_eq]
+    rw [this, oks_flatten, chunks_flatten _ hn]
+  have h2 : (List.map ((fun x => x.2) ∘ processChunkT cfg.plugins)
+      (chunks (chunkSize batch.length cfg.selfPar) batch)).flatten = errs cfg.plugins batch := by
+    have : ((fun x : List (List Json) × List Json => x.2) ∘ processChunkT cfg.plugins)
+        = errs cfg.plugins := by
+      funext c; simp [processChunkT_eq]
+    rw [this, errs_flatten, chunks_flatten _ hn]
+  rw [h1, h2]
+  rfl
+
+theorem respondAllO_ok_iff (respondO : Json → Outcome Json) : ∀ qs : List Json,
+    (∃ vs, respondAllO respondO qs = .ok vs) ↔ ∀ q ∈ qs, ∃ v, respondO q = .ok v
+  | [] => by simp [respondAllO]
+  | q :: r => by
+    have ih := respondAllO_ok_iff respondO r
+    simp only [respondAllO, List.mem_cons, forall_eq_or_imp]
+    cases hq : respondO q with
+    | panic s => simp
+    | diverges => simp
+    | ok v =>
+      simp only [Outcome.ok.injEq, exists_eq', true_and]
+      rw [← ih]
+      cases respondAllO respondO r <;> simp
+
+theorem respondAllO_total (respond : Json → Json) : ∀ qs : List Json,
+    respondAllO (fun q => .ok (respond q)) qs = .ok (qs.map respond)
+  | [] => rfl
+  | q :: r => by simp [respondAllO, respondAllO_total respond r]
+
+/-! ### the packaging of a response -/
+
+/-- an output plugin that leaves the `request` field of the output alone -/
+def KeepsRequest (p : Json → Json → Except String Json) : Prop :=
+  ∀ q out out', p q out = .ok out' → out.get? "request" = some q → out'.get? "request" = some q
+
+theorem applyOut_request : ∀ (ps : List (Json → Json → Except String Json)) (q out : Json),
+    (∀ p ∈ ps, KeepsRequest p) → out.get? "request" = some q →
+    (applyOut ps q out).get? "request" = some q
+  | [], _, _, _, h => h
+  | p :: ps, q, out, hk, h => by
+    simp only [applyOut]
+    cases hp : p q out with
+    | error e => simp [Json.get?, Json.lookup]
+    | ok out' =>
+      exact applyOut_request ps q out' (fun p' hp' => hk p' (by simp [hp']))
+        (hk p (by simp) q out out' hp h)
+
+/-- `output[key] = value` for a key other than `request` keeps the request -/
+theorem set_other_key_keepsRequest (key : String) (hk : key ≠ "request") (f : Json → Json → Json) :
+    KeepsRequest (fun q out => match out with
+      | .obj kvs => .ok (.obj (Json.insertKv kvs key (f q out)))
+      | _ => .error "output is not an object") := by
+  intro q out out' h hr
+  cases out with
+  | obj kvs =>
+    simp only [Except.ok.injEq] at h
+    subst h
+    simp only [Json.get?] at hr ⊢
+    rw [GridSearch.lookup_insertKv]
+    simp [Ne.symm hk, hr]
+  | _ => simp at h
+
 end Batch
 end Compass
